@@ -166,30 +166,58 @@ Fixpoint canon_sx (t : xtree) : sx :=
                               match l with [] => [] | k :: r => canon_sx k :: go r end) ks))]
   end.
 
-(* observables: the document written; then, twice (the harness decodes the
-   implementation's own bytes and the same document in the model printer's
-   spelling), either an error marker or the decoded value *)
+(* observables.  [SL [SZ (-4)]]: xml.Marshal returns an error (a condition that is not an
+   element name).  [SL [SZ (-5)]]: the bytes written are not one element the decoder reads
+   (a generic node or attribute whose name is not a name: names are the caller's business,
+   encoding/xml writes them unchecked).  Otherwise the document written; then, twice (the
+   harness decodes the implementation's own bytes and the same document in the model
+   printer's spelling), either an error marker or the decoded value *)
+Definition decoded (ty : vtype) (t : xtree) : sx :=
+  match dec Generated.registry ty t with
+  | None => SL [SZ (-2)]
+  | Some v' => SL [value_sx v']
+  end.
+
 Definition run_typed (v : value) : sx :=
+  if negb (marshals v) then SL [SZ (-4)] else
   let t := enc v in
-  let r := match parse (print t) with
-           | None => SL [SZ (-1)]
-           | Some t' =>
-               match dec Generated.registry (vtype_of v) t' with
-               | None => SL [SZ (-2)]
-               | Some v' => SL [value_sx v']
-               end
-           end in
-  (* in the domain of C01_parse_print the document is enc v itself; outside it (e.g. a
-     child without namespace under a parent with one) it is what the printed form
-     denotes, i.e. what the model's own reader makes of it *)
-  let doc := if wf_doc t then t
-             else match parse (print t) with Some t' => t' | None => t end in
-  SL [canon_sx doc; r; r].
+  match parse (print t) with
+  | None => SL [SZ (-5)]
+  | Some t' =>
+      let r := decoded (vtype_of v) t' in
+      (* in the domain of C01_parse_print the document is enc v itself; outside it (e.g. a
+         child without namespace under a parent with one) it is what the printed form
+         denotes, i.e. what the model's own reader makes of it *)
+      let doc := if wf_doc t then t else t' in
+      SL [canon_sx doc; r; r]
+  end.
+
+(* a document that is NOT the encoding of a value (what a peer may send: the stanza in
+   jabber:client, unknown and repeated children, numbers with white space around them),
+   printed by the model's printer and decoded into the given type *)
+Definition vtype_of_z (z : Z) : option vtype :=
+  match z with
+  | 1 => Some TMessage | 2 => Some TPresence | 3 => Some TIQ | 4 => Some TNode
+  | 5 => Some TSMEnable | 6 => Some TSMEnabled | 7 => Some TSMRequest | 8 => Some TSMAnswer
+  | 9 => Some TSMResume | 10 => Some TSMResumed | 11 => Some TSMFailed | 12 => Some TSASLAuth
+  | 13 => Some THandshake | _ => None
+  end.
+Definition sx_wire (x : sx) : option (vtype * xtree) :=
+  match x with
+  | SL [SZ 20; SZ ty; t] => do ty' <- vtype_of_z ty; do t' <- sx_tree t; Some (ty', t')
+  | _ => None
+  end.
+Definition run_wire (w : vtype * xtree) : sx :=
+  match parse (print (snd w)) with
+  | None => SL [SZ (-5)]
+  | Some t' => decoded (fst w) t'
+  end.
 
 (* [SL [SZ 0]]: an oracle-only case of the harness (reflection round trip of a
    type the model does not cover); nothing to compare *)
 Definition run_C01 (x : sx) : sx :=
   match x with
   | SL [SZ 0] => SL [SZ 0]
+  | SL (SZ 20 :: _) => with_input sx_wire run_wire x
   | _ => with_input sx_value run_typed x
   end.
